@@ -498,7 +498,10 @@ class Reaction:
         values, config, original = as_material_array(
             material, self._basis, self._phases, self.chemicals
         )
-        self._reaction(values)
+        try: self._reaction(values)
+        except:
+            if config: material._imol.reset_chemicals(*config) # Material keeps its own chemicals
+            raise
         if tmo.reaction.CHECK_FEASIBILITY:
             has_negatives = values.has_negatives()
             if has_negatives:
@@ -526,7 +529,10 @@ class Reaction:
         values, config, original = as_material_array(
             material, self._basis, self._phases, self.chemicals
         )
-        self._reaction(values)
+        try: self._reaction(values)
+        except:
+            if config: material._imol.reset_chemicals(*config) # Material keeps its own chemicals
+            raise
         fn.remove_negligible_negative_values(values)
         if original is not None: original[:] = values
         if config: material._imol.reset_chemicals(*config)
@@ -1675,9 +1681,9 @@ class ReactionSystem:
     
     def _reaction(self, material):
         basis = self._basis
-        for i in self._reactions: 
+        for i in self._reactions: # Before any reaction takes place
             if i._basis != basis: raise RuntimeError('not all reactions have the same basis')
-            i._reaction(material)
+        for i in self._reactions: i._reaction(material)
     
     def _conversion(self, material):
         basis = self._basis
